@@ -17,7 +17,7 @@ from . import common
 from .common import log, ToolError
 
 EXE = "pvh_pipeline"
-RUN_FORMAT = 9      # bump when the way cases are assembled / rendered in this file changes
+RUN_FORMAT = 10     # bump when the way cases are assembled / rendered in this file changes
 THREADS = os.environ.get("PVH_THREADS", "6")
 TLC_WORKERS = int(os.environ.get("PIPELINE_TLC_WORKERS", "4"))
 
@@ -55,9 +55,10 @@ def assert_same_tree(state0):
 def harness_state():
     h = hashlib.sha1()
     base = os.path.join(common.VERIF, "harness", "src")
-    for rel in ["bin/pvh_pipeline.rs", "pipeline/drive.rs", "pipeline/gen.rs"]:
+    for rel in ["bin/pvh_pipeline.rs", "pipeline/drive.rs", "pipeline/gen.rs", "flat.rs"]:
         h.update(open(os.path.join(base, rel), "rb").read())
-    for rel in ["PipelineTokens.tla", "MC_Pipeline.tla", "Pipeline.tla", "MC_PipelineWide.tla", "PipelineShapes.tla"]:
+    for rel in ["PipelineTokens.tla", "MC_Pipeline.tla", "Pipeline.tla", "MC_PipelineWide.tla", "PipelineShapes.tla",
+                "FlatBody.tla", "Placement.tla", "MC_Placement.tla", "VarScope.tla", "MC_VarScope.tla"]:
         h.update(open(os.path.join(common.SPEC, rel), "rb").read())
     h.update(json.dumps([RUN_FORMAT, TIERS], sort_keys=True).encode())
     return h.hexdigest()[:10]
@@ -454,10 +455,13 @@ def render_shape(case, idx):
 TIERS = {
     # n_mut, n_soup, n_nest, n_fault, n_multi, n_line, n_struct, audit families on/off; token cfgs; module-set cfg; statement-placement cfg
     "quick": dict(xgen=[150, 120, 2], gen=[9000, 1500, 480, 1200, 1500, 4000, 600, 1], tok=["PipelineTokens_quick.cfg"], mc="MC_Pipeline_quick.cfg",
-                  place="MC_Placement_quick.cfg", wide="MC_PipelineWide_quick.cfg", shapes="PipelineShapes_quick.cfg"),
+                  place="MC_Placement_quick.cfg", wide="MC_PipelineWide_quick.cfg", shapes="PipelineShapes_quick.cfg",
+                  scope=["MC_VarScope_dead_quick.cfg", "MC_VarScope_phased_quick.cfg"]),
     "thorough": dict(xgen=[2500, 1200, 3], gen=[120000, 20000, 1440, 12000, 15000, 50000, 6000, 1],
                      tok=["PipelineTokens_quick.cfg", "PipelineTokens_thorough3.cfg"], mc="MC_Pipeline_thorough.cfg",
-                     place="MC_Placement_quick.cfg", wide="MC_PipelineWide_thorough.cfg", shapes="PipelineShapes_thorough.cfg"),
+                     place="MC_Placement_quick.cfg", wide="MC_PipelineWide_thorough.cfg", shapes="PipelineShapes_thorough.cfg",
+                     scope=["MC_VarScope_dead_thorough.cfg", "MC_VarScope_quick.cfg", "MC_VarScope_phased_quick.cfg",
+                            "MC_VarScope_else_quick.cfg", "MC_VarScope_ret_quick.cfg", "MC_VarScope_ctx_quick.cfg"]),
 }
 
 
@@ -577,10 +581,28 @@ def _compute_run(tier, seed, d):
                 continue
             seen.add(key)
             f.write(json.dumps({"id": "place%d" % len(seen), "b": placement_items(c)}) + "\n")
+    # (a3') the bodies the variable-scoping rule ACCEPTS (spec/VarScope.tla of C05, read-only): declarations in dead code after an
+    # unconditional goto that are used after a later label, phased bodies, else-chains, results -- whatever the scoper lets through
+    # has to come out of the generator as IR (seventh round of seeded changes, C02g)
+    for scfg in cfg["scope"]:
+        r = _tlc("MC_VarScope", scfg, "scope", 1500)
+        tlc_stats[scfg] = {"generated": r.generated, "distinct": r.distinct, "cases": len(r.cases), "foreign": True}
+        with open(items_path, "a") as f:
+            for c in r.cases:
+                key = ("scope",) + tuple(c["b"])
+                if not c["ok"] or c["consts"] or c["params"] or key in seen:
+                    continue
+                seen.add(key)
+                f.write(json.dumps({"id": "scope%d" % len(seen), "b": c["b"]}) + "\n")
     pvh(["render-flat", items_path, place_path])
     with open(place_path) as f:
         for line in f:
-            cases.append(json.loads(line))
+            c = json.loads(line)
+            if c["id"].startswith("scope"):
+                # the scoping rule accepts the body and nothing else can be wrong with it: I4
+                c["kind"] = "scope"
+                c["expect"] = {"t": "valid"}
+            cases.append(c)
     os.remove(items_path)
     os.remove(place_path)
     n_tlc = len(cases)
